@@ -676,7 +676,9 @@ static void Calibrate()
    for (int ci = 0; ci < NCFG; ci++) for (int fx = 1; fx <= 2; fx++) {
       Session * s = Make(CFGS[ci], FIXED_SEED ^ (uint64_t)ci, 0, true, fx); s->chop.mode = chopio::CM_EVERYTHING;
       if (Drain(*s)) s->Finish();
-      if (s->failed) HarnessAbort(vh::fmt("the sweep's fixed sequence of config %s is not delivered even without any cut: %s: %s", CFGS[ci].name, s->failKey.c_str(), s->failDetail.c_str()));
+      if (s->failed) {   // not even the uncut run delivers: reported once per worker, this config is left out of the sweep, the others are still swept
+         Report(*s, "mode=sweep calibration: the fixed sequence WITHOUT any cut"); vh::stat(std::string("sweep_uncut_failures_") + CFGS[ci].name); delete s; continue;
+      }
       for (size_t p = 0; p < s->pipes.size(); p++) {
          long L = (long)s->pipes[p]->Written(); if (L == 0) continue;
          if (fx == 1) { Block b; b.cfg = ci; b.pipe = (int)p; b.L = L; b.count = L + 1; b.kind = 0; gBlocks.push_back(b); if (s->ChoppedWrites()) { b.kind = 1; gBlocks.push_back(b); } }
